@@ -4,6 +4,7 @@ import Driver.UrlD
 import Driver.LoaderD
 import Driver.SoapD
 import Driver.PipelineD
+import Driver.WsaD
 /-! Line-protocol driver: one JSON object per stdin line, one per stdout line. -/
 open Lean Driver
 
@@ -19,6 +20,7 @@ def dispatch (j : Json) : R Json := do
   | "loader.policy" => loaderPolicy j
   | "soap.triage" => soapTriage j
   | "pipeline.run" => pipelineRun j
+  | "wsa.request" => wsaRequest j
   | _ => throw s!"unknown op {op}"
 
 def handleLine (line : String) : String :=
